@@ -1,6 +1,7 @@
 (* C14  Conversion to the bench basis preserves the function.
    Statements only; proofs live in Proofs/SemBench.v (rules, shape of one step, loop induction),
-   Proofs/SemBench2.v (semantics, types, blocks) and Proofs/WFBench.v (well-formedness, C02).
+   Proofs/SemBench2.v (semantics, types, blocks), Proofs/WFBench.v (well-formedness, C02) and
+   Proofs/EntryEq.v (entry points, by the completeness of the evaluators, C01).
 
    Hypotheses: Inv c = WF c /\ inputs_nullary c (the invariant of C02) and arity_ok c (every
    operand count is accepted by its operator).  "at least one input" is NOT needed as a
@@ -17,7 +18,8 @@ Require Import Cirbo.Model.Base Cirbo.Model.Gate Cirbo.Model.Den Cirbo.Model.Cir
         Cirbo.Model.Eval Cirbo.Model.Sem Cirbo.Model.History Cirbo.Model.WF.
 Require Import Cirbo.Generated.Operators Cirbo.Generated.GateTypes.
 Require Import Cirbo.Proofs.WFEmplace Cirbo.Proofs.WFStep Cirbo.Proofs.SemExt Cirbo.Proofs.SemBench
-        Cirbo.Proofs.SemBench2 Cirbo.Proofs.C14Final Cirbo.Proofs.WFBench Cirbo.Proofs.SemCex.
+        Cirbo.Proofs.SemBench2 Cirbo.Proofs.C14Final Cirbo.Proofs.WFBench Cirbo.Proofs.SemCex
+        Cirbo.Proofs.EntryEq.
 Require Import Cirbo.Generated.Converters Cirbo.Proofs.ConvertersGen.
 
 (* ---- the rewrite rules, locally ---- *)
@@ -103,20 +105,28 @@ Theorem C14_truth_table_preserved : forall c fresh c' a,
   forall vs, Forall2 (Eval c' a) (outputs c') vs <-> Forall2 (Eval c a) (outputs c) vs.
 Proof. exact into_bench_outputs_sem'. Qed.
 
-(* the same at the entry points: FULL statement would be
-     get_truth_table c' = get_truth_table c   (as results);
-   proved: whenever both calls return, the tables (and the results of evaluate on every Boolean
-   input vector) are equal.  Missing: that the call on c' returns whenever the call on c does
-   (completeness of the evaluators, the other half of C01). *)
-Theorem C14_evaluate_partial : forall c fresh c' bs r r',
-  Inv c -> arity_ok c -> into_bench c fresh = Ok c' ->
-  evaluate c (map inj bs) = Ok r -> evaluate c' (map inj bs) = Ok r' -> r = r'.
-Proof. exact into_bench_evaluate'. Qed.
+(* the same at the entry points, as equalities of results: evaluate on every Boolean input vector
+   (of any length: on a vector shorter than the input list both calls raise IndexError) and the
+   truth table.  Both calls return (C14_get_truth_table_returns): the evaluators are total on
+   well-formed circuits with accepted arities (C01) and the converted circuit is one
+   (C14_well_formed, C14_arities_accepted). *)
+Theorem C14_arities_accepted : forall c fresh c',
+  Inv c -> arity_ok c -> into_bench c fresh = Ok c' -> arity_ok c'.
+Proof. exact into_bench_arity_ok. Qed.
 
-Theorem C14_get_truth_table_partial : forall c fresh c' t t',
+Theorem C14_evaluate : forall c fresh c' bs,
   Inv c -> arity_ok c -> into_bench c fresh = Ok c' ->
-  get_truth_table c = Ok t -> get_truth_table c' = Ok t' -> t = t'.
-Proof. exact into_bench_truth_table'. Qed.
+  evaluate c' (map inj bs) = evaluate c (map inj bs).
+Proof. exact into_bench_evaluate_eq. Qed.
+
+Theorem C14_get_truth_table : forall c fresh c',
+  Inv c -> arity_ok c -> into_bench c fresh = Ok c' -> get_truth_table c' = get_truth_table c.
+Proof. exact into_bench_truth_table_eq. Qed.
+
+Theorem C14_get_truth_table_returns : forall c fresh c',
+  Inv c -> arity_ok c -> into_bench c fresh = Ok c' ->
+  exists tt, get_truth_table c = Ok tt /\ get_truth_table c' = Ok tt.
+Proof. exact into_bench_truth_table_ok. Qed.
 
 (* only INPUT, NOT, AND, OR, NAND, NOR, XOR, NXOR and buffer (IFF) gates remain *)
 Theorem C14_bench_basis : forall c fresh c',
